@@ -93,6 +93,11 @@ class Module:
         # behaviour-preserving normal forms (docstrings, logging statements, else-after-return, temp-return, local annotations)
         from .normalise import normalise_tree
         self.normal_forms = normalise_tree(self.tree)
+        from .inline import inline_new_helpers
+        self.inlining = inline_new_helpers(relpath, self.tree)
+        if self.inlining["inlined"]:
+            for k, v in normalise_tree(self.tree).items():  # e.g. `x = E; return x` produced by splicing
+                self.normal_forms[k] += v
         from .localnames import normalise_module
         self.alpha_normalised = normalise_module(relpath, self.tree)
         self.is_pkg = relpath.endswith("__init__.py")
